@@ -292,6 +292,24 @@ def _enriched(repo, tmp):
         table += struct.pack('<i', len(block))
         block += nm + b'\0'
     table_l.data, data_l.data = table, block
+    # two TEXDATA records for one material (legal; seen where a material is used at two sizes), the second used by an
+    # extra TEXINFO record: a copy of record 0 with other sizes and reflectivity, appended by hand
+    td_l, ti_l = bsp.lumps[B.BSP_LUMPS.TEXDATA], bsp.lumps[B.BSP_LUMPS.TEXINFO]
+    td, ti = bytes(td_l.data), bytes(ti_l.data)
+    if len(td) % 32 == 0 and len(ti) % 72 == 0 and td and ti:
+        refl = struct.unpack_from('<3f', td, 0)
+        name_ind, w, h = struct.unpack_from('<3i', td, 12)
+        td_l.data = td + struct.pack('<3f5i', refl[0] * 0.5, refl[1], refl[2] * 0.25, name_ind, w * 2, h + 16, w * 2, h + 16)
+        ti_l.data = ti + ti[:68] + struct.pack('<i', len(td) // 32)
+    # a plane whose stored type is not the one its normal would be given today (files keep what the compiler wrote)
+    pl_l = bsp.lumps[B.BSP_LUMPS.PLANES]
+    pl = bytearray(pl_l.data)
+    for i in range(0, len(pl) - 19, 20):
+        x, y, z, dist, typ = struct.unpack_from('<ffffi', pl, i)
+        if typ in (0, 1, 2) and i >= 40:
+            struct.pack_into('<i', pl, i + 16, typ + 3)
+            break
+    pl_l.data = bytes(pl)
     bsp.save(path)
     return path
 
@@ -361,7 +379,8 @@ def _owned_lumps():
 
 
 @bounded('C10.B-subsets', bound='sample BSP and an enriched copy (props, cubemaps, visibility, overlays, detail props, '
-         'leaf water, primitives, pakfile entry): no view, every single view, ordered pairs (quick: a seeded sample of '
+         'leaf water, primitives, pakfile entry; by hand: texture names that are affixes of others, two TEXDATA records of '
+         'one material, a plane whose stored type differs from the one derived from its normal): no view, every single view, ordered pairs (quick: a seeded sample of '
          '120; thorough: all 420), seeded larger subsets/orders (quick 15, thorough 150)',
          rule='one case per ordered access sequence; non-trivial when at least one view is accessed')
 def b_subsets(ctx):
@@ -509,6 +528,12 @@ b_subsets.replay = _replay_subset
 BOUNDED = [b_subsets, b_layouts]
 
 MUTATIONS = [
+    dict(name='plane_type_recomputed_from_normal', file='bsp.py', old="                plane.type.value,\n",
+         new="                PlaneType.from_normal(plane.normal).value,\n", expect='access=enriched'),
+    dict(name='texdata_indexed_by_material_name', file='bsp.py',
+         old="                ind = texdata_ind[tdat]\n            except KeyError:\n                ind = texdata_ind[tdat] = next_ind",
+         new="                ind = texdata_ind[tdat.mat.casefold()]\n            except KeyError:\n                ind = texdata_ind[tdat.mat.casefold()] = next_ind",
+         expect='access=enriched'),
     dict(name='order_texinfo_before_overlays', file='bsp.py',
          old="    BSP_LUMPS.OVERLAYS,  # Adds texinfo entries.\n\n    BSP_LUMPS.TEXINFO,  # Adds texdata -> texdata_string_data entries.",
          new="    BSP_LUMPS.TEXINFO,  # Adds texdata -> texdata_string_data entries.\n    BSP_LUMPS.OVERLAYS,  # Adds texinfo entries.\n",
